@@ -780,13 +780,16 @@ fn run_path(c: &Case) -> String {
         return "bad-case".to_string();
     }
     let mut out: Vec<String> = vec![];
+    let log: Log = Rc::new(RefCell::new(vec![]));
+    let mut log_len = 0usize;
     let res = guarded(|| {
         if c.fmt == "fa" {
             let mut rdr = if c.cap == 65536 {
                 fasta::Reader::from_path(&path).unwrap()
             } else {
                 fasta::Reader::from_path_with_capacity(&path, c.cap).unwrap()
-            };
+            }
+            .set_policy(DynPolicy::new(c.pol.clone(), log.clone()));
             for op in &c.ops {
                 out.push(match op {
                     Op::Next => match rdr.next() {
@@ -805,13 +808,19 @@ fn run_path(c: &Case) -> String {
                     },
                     _ => "bad-op".to_string(),
                 });
+                if log.borrow().len() != log_len {
+                    log_len = log.borrow().len();
+                    let last = out.len() - 1;
+                    out[last] = format!("{}#{}", out[last], log_len);
+                }
             }
         } else {
             let mut rdr = if c.cap == 65536 {
                 fastq::Reader::from_path(&path).unwrap()
             } else {
                 fastq::Reader::from_path_with_capacity(&path, c.cap).unwrap()
-            };
+            }
+            .set_policy(DynPolicy::new(c.pol.clone(), log.clone()));
             for op in &c.ops {
                 out.push(match op {
                     Op::Next => match rdr.next() {
@@ -830,6 +839,11 @@ fn run_path(c: &Case) -> String {
                     }
                     _ => "bad-op".to_string(),
                 });
+                if log.borrow().len() != log_len {
+                    log_len = log.borrow().len();
+                    let last = out.len() - 1;
+                    out[last] = format!("{}#{}", out[last], log_len);
+                }
             }
         }
     });
@@ -839,7 +853,7 @@ fn run_path(c: &Case) -> String {
         Caught::Panic => out.push("PANIC".to_string()),
         Caught::Hang => out.push("HANG".to_string()),
     }
-    out.join(";")
+    format!("{} L={}", out.join(";"), log_str(&log))
 }
 
 /// Iterator contract of a record-set iterator (C20), judged on the iterator alone: before each of the `n` items
